@@ -187,6 +187,12 @@ def quote_span(ctx, lexpr):
     idom = cfg.dominators(f)
     qcalls = [(bi, t) for bi, t in f.calls() if t["callee"].get("path", "") == "datum::Datum::quotation"]
     rec = [bi for bi, t in f.calls() if t["callee"].get("path", "").endswith("Parser::<R>::next_datum")]
+    # the recursive step may be wrapped: a closure of next_datum that makes the call, handed to a depth-charging helper
+    for g in lexpr.closures_of(f.path):
+        if any(t["callee"].get("path", "").endswith("Parser::<R>::next_datum") for _b, t in g.calls()):
+            for bi, b in enumerate(f.blocks):
+                if any(st["k"] == "assign" and st["rv"]["k"] == "agg" and st["rv"].get("closure") == g.path for st in b["stmts"]):
+                    rec.append(bi)
     if not qcalls or not rec:
         r.anchor_missing("Datum::quotation call / recursive next_datum call in next_datum")
         return
